@@ -228,7 +228,8 @@ def thorough_cfg(text):
            'Loads = {"moderate"}': 'Loads = {"light", "moderate"}',
            'PVsA = {FALSE}': 'PVsA = {FALSE, TRUE}',
            'TrafoKindsA = {"none"}': 'TrafoKindsA = {"none", "t150"}',
-           'PV2s = {FALSE}': 'PV2s = {FALSE, TRUE}'}
+           'PV2s = {FALSE}': 'PV2s = {FALSE, TRUE}',
+           'TrafoKinds2 = {"t150"}': 'TrafoKinds2 = {"t0", "t150"}'}
     for a, b in rep.items():
         if a not in text:
             raise MachineryError("Solvers.cfg: constant line %r not found" % a)
@@ -354,7 +355,8 @@ def run(tier, seed, replay=None):
         "traces_validated_against_impl": nruns, "evaluations": len(cases), "distinct_nontrivial": nontriv,
         "exhaustive": not replay,
         "rule": "every class of Solvers.cfg (1-2 islands of the 4-bus template: topology radial/1 loop/2 loops, slack kind and "
-                "position, PV gen, second slack, 20/0.4 kV transformers with 0/150 degree shift, load level) x "
+                "position, PV gen, second slack, 20/0.4 kV transformers with 0/150 degree shift in the first, the second or "
+                "(thorough) both islands, load level) x "
                 "calculate_voltage_angles x 13 solver configurations; non-trivial = reference converged, >= 8 alternative "
                 "configurations returned and were compared, and the class has 2 islands, a loop, a PV gen or a shifting transformer",
         "reference_converged": refok, "pairs_compared_with_reference": compared,
